@@ -68,7 +68,9 @@ for _cat in ('instructor', 'runtime', 'complete'):
 
 SUPSETS = [[], [('runtime', True, None)], [('instructor', True, None)], [(None, 'L', None)],
            [('instructor', 'l', None)], [('algorithmic', True, None), ('syntax', True, None)],
-           [('specification', True, None)], [('mistakes', True, None), ('complete', True, None)]]
+           [('specification', True, None)], [('mistakes', True, None), ('complete', True, None)],
+           # the documented aliases of tool names, in the spellings an instructor may type
+           [('Analyzer', True, None)], [('PARSER', True, None)], [('analyzer', True, None), ('Verifier', True, None)]]
 
 
 def _setup():
